@@ -184,7 +184,8 @@ class CombinedDataHandler:
             unexpected_units["county_fips"] = unexpected_units["geographic_unit_fips"].apply(
                 self._get_county_fips_from_geographic_unit_fips
             )
-        if "district" in aggregates:
+        # units of a district geographic unit type are always aggregated by district (see DEFAULT_AGGREGATES)
+        if "district" in aggregates or "district" in self.geographic_unit_type:
             unexpected_units["district"] = unexpected_units["geographic_unit_fips"].apply(
                 self._get_district_from_geographic_unit_fips
             )
